@@ -92,7 +92,13 @@ where
         &self,
         symbol: impl Borrow<Self::Symbol>,
     ) -> Option<(Self::Probability, <Self::Probability as BitArray>::NonZero)> {
-        let symbol = symbol.borrow().as_();
+        let symbol = *symbol.borrow();
+        if Probability::BITS < <usize as BitArray>::BITS && (symbol >> Probability::BITS) != 0 {
+            // `symbol` doesn't fit into `Probability`, so it is certainly out of range (and
+            // the narrowing conversion below would alias it with an in-range symbol).
+            return None;
+        }
+        let symbol: Probability = symbol.as_();
         let left_cumulative = symbol.wrapping_mul(&self.probability_per_bin.get());
 
         #[allow(clippy::comparison_chain)]
